@@ -1,5 +1,6 @@
-import Fcgi.Proofs.E2EWriters
+import Fcgi.Proofs.E2EWritersChain
 import Fcgi.Props.C07BufRead2
+import Fcgi.Props.E2EUnbounded
 /-!
 # C07 / C10 — end to end with TWO writers and any sequence of `write_all`s
 
@@ -16,12 +17,14 @@ inside a record.
 with `outOf id W` = the concatenation, IN SCRIPT ORDER, of `streamRecords (6 or 7) id data` — so every byte of every
 write is on the wire exactly once, as the payload of records of the writer's own stream type and the request's id;
 records of the two writers are never interleaved (a record is complete before the next write starts); per-writer
-order is preserved (`outOf_filter`: the Stdout records alone are the Stdout writes in order, same for Stderr);
-empty writes contribute nothing (`outOf_empty`).  The only model-fuel side condition is a bound on the total output
+order is preserved (the whole interleaving is the script's: `outOf_cons`, `outOf_append`); an empty write
+contributes nothing (`outOf_empty`), a write of 1 … 65 535 bytes exactly one record (`outOf_small`).  The only model-fuel side condition is a bound on the total output
 cost, `wcostAll W + 20 ≤ 1000` (`wcostAll W = Σ (⌈|data|/65535⌉ + 1)`); NO size hypothesis on the input, none on `b`.
 
-NOT covered: `flush` between writes.  The transport's scripted flush answers (`fl`) are not tracked by the e2e
-invariants (`TStep`, `ans`: a `Pending` flush wakes the task without consuming a read/write answer), see the report.
+NOT covered end to end: `flush` between writes.  The transport's scripted flush answers (`fl`) are not tracked by
+the e2e invariants (`TStep`, `ans`: a `Pending` flush wakes the task without consuming a read/write answer).  At
+handler level `E2E.flush_step` shows that a flush on an idle writer, with a transport whose flush succeeds at once,
+leaves log, input and writers as they were; the replay `c07w-flush-between` agrees (model = crate).
 -/
 namespace Fcgi.C07W
 open Fcgi Fcgi.Req Fcgi.Str Fcgi.Async Fcgi.Run Fcgi.Spec Fcgi.E2E Fcgi.C07E Fcgi.C07U Fcgi.C07B
@@ -169,5 +172,147 @@ theorem single_request_writers_e2e {p : Preamble} {recs : List Rec} {content : B
       exact this.symm
     exact ⟨c', fin, O1, O2, pad, res, hrun, hO.trans hOt.symm, ⟨hfu.ev.1, hfu.ev.2⟩,
       by rw [← hacc]; exact q3, by rw [hfu.log, lw_eq], hfu.sc, Or.inl ⟨hfu.nokeep, hfin, hfu.ph⟩⟩
+
+/-! ## The chain step -/
+
+/-- **After the two-writer request, the next requests are served exactly as alone.**  A closed-loop client sends
+the request of `single_request_writers_e2e` (with KEEP_CONN) and then the keep-alive requests `x :: xs`
+(`UReq.OKu`: read to the end by a canonical handler, or a Responder request left unread).  Then: `1 + k` handler
+starts; the log is the first request's (`expectedLogW`, all its writes' records in script order) followed by the `k`
+segments `UReq.Seg`; all scripts are consumed; the task is parked behind what the last request left unread. -/
+theorem writers_chain_e2e {p : Preamble} {recs : List Rec} {content : Bytes} {srecs : List Rec}
+    {b mc : Nat} {W : WList} {st : ExitStatus} (x : UReq) (xs : List UReq) {t : Transport} {fuel : Nat}
+    (hwf : WellFormedPreamble p recs) (hrole : p.role = 1) (hk : p.flags.toNat % 2 = 1)
+    (hpairs : ∀ q ∈ p.pairs, (NV.enc q).length ≤ alignedBufsize b)
+    (hnoise : NoiseFits (alignedBufsize b) recs)
+    (hs : StreamRecs p.id 5 content srecs) (hsn : NoiseFits (alignedBufsize b) srecs)
+    (hok : ∀ y ∈ x :: xs, y.OKu b)
+    (hin : t.input = serAll recs ++ serAll srecs) (hben : Ben t) (hem : t.endMode = .pend)
+    (hev : hsCount t.events = 0) (hfuel : t.rd.length + t.wr.length + 1 ≤ fuel)
+    (hhf : wcostAll W + 20 ≤ 1000) :
+    ∃ c' O₁ O₂ A,
+      closedLoop fuel ((x :: xs).map UReq.wire)
+        (connS b mc t ((wscript W st, true) :: (x :: xs).map UReq.handler)) 0 = (c', "STALL") ∧
+      O₁ ++ O₂ = owedStream p.id 5 mc srecs ∧
+      SegsAll mc (x :: xs) A ∧
+      c'.env.tr.wlog = t.wlog ++ expectedLogW p recs mc W st O₁ O₂ ++ A ∧
+      hsCount c'.env.tr.events = 1 + (x :: xs).length ∧
+      startEvent p.request ∈ c'.env.tr.events ∧ readEvent content ∈ c'.env.tr.events ∧
+      (∀ y ∈ x :: xs, startEvent y.p.request ∈ c'.env.tr.events) ∧ c'.scripts = [] ∧
+      c'.env.tr.input = [] ∧
+      c'.phase = .parseReq (track (alignedBufsize b) mc (serAll ((x :: xs).getLast (by simp)).left)) .reading := by
+  have hid := (pid_of_wf hwf).2
+  obtain ⟨body, pad, res, hpad, hbody, hsrecs⟩ := StreamRecs.split hs
+  have hsb : NoiseFits (alignedBufsize b) body := fun r hr => hsn r (by rw [hsrecs]; simp [hr])
+  have hOt : owedStream p.id 5 mc srecs = owedStream p.id 5 mc body := by
+    rw [hsrecs, owedStream_append, owedStream_term p.id 5 mc _ rfl, List.append_nil]
+  have ok : BR2OKW (cfgW p recs content body pad res b mc W st t.wlog 0
+      (((x :: xs).map (UReq.spec mc)).map RSpec.handler)) W 0 0 :=
+    ⟨hwf, hrole, hpairs, hnoise, hbody, hsb, hpad, rfl, rfl, rfl, rfl, by omega⟩
+  have htw : (trec 5 p.id pad res).WF := ⟨hid, by simp [trec], hpad⟩
+  have hT : IdleNoise (trec 5 p.id pad res) :=
+    ⟨htw, fun hx => absurd hx (by show (5 : UInt8).toNat ≠ RT.beginRequest; decide)⟩
+  have hlo : LeftOK (alignedBufsize b) [trec 5 p.id pad res] :=
+    ⟨fun e he => by rw [List.mem_singleton.1 he]; exact hT, fun e he hg => by
+      rw [List.mem_singleton.1 he] at hg
+      exact absurd hg.1 (by show (5 : UInt8).toNat ≠ RT.getValues; decide)⟩
+  have hW : (cfgW p recs content body pad res b mc W st t.wlog 0
+      (((x :: xs).map (UReq.spec mc)).map RSpec.handler)).W = t.input := by
+    rw [hin, hsrecs, C02.serAll_append, C02.serAll_single]
+    rfl
+  have hstart : StartAt (alignedBufsize b) mc [] t.wlog
+      ((wscript W st, true) :: ((x :: xs).map (UReq.spec mc)).map RSpec.handler) 0 [] (ans t)
+      (cfgW p recs content body pad res b mc W st t.wlog 0
+        (((x :: xs).map (UReq.spec mc)).map RSpec.handler)).W
+      (connS b mc t ((wscript W st, true) :: ((x :: xs).map (UReq.spec mc)).map RSpec.handler)) :=
+    Or.inr ⟨rfl, rfl, by show t.input = _; rw [hW], rfl, hben, rfl, rfl, rfl, hev,
+      (fun _ hs => nomatch hs), rfl, hem, Nat.le_refl _⟩
+  have hleft0 : LeftOK (alignedBufsize b) [] := ⟨(fun _ he => nomatch he), (fun _ hr => nomatch hr)⟩
+  obtain ⟨c1, O1, O2, hrun1, hO, hrd, hw1⟩ := serve_writers_core ok hk (left := []) hleft0 (Z := x.wire) hT
+    (goodNext_of_oku (hok x List.mem_cons_self) hlo) 0 fuel (by simp [idleOwed]; rfl) hstart (by unfold ans; omega)
+  have hz : idleOwed mc [trec 5 p.id pad res] = [] := by
+    simp [idleOwed, owed, trec, RT.valid, RT.getValues, RT.beginRequest]
+  have hLw : ((cfgW p recs content body pad res b mc W st t.wlog 0
+      (((x :: xs).map (UReq.spec mc)).map RSpec.handler)).front []).Lw W O1 O2 ++ idleOwed mc [trec 5 p.id pad res] =
+      t.wlog ++ expectedLogW p recs mc W st O1 O2 := by
+    rw [hz, List.append_nil]
+    exact lw_eq O1 O2
+  have hw1' : Waiting (alignedBufsize b) mc [trec 5 p.id pad res]
+      (t.wlog ++ expectedLogW p recs mc W st O1 O2)
+      (((x :: xs).map (UReq.spec mc)).map RSpec.handler) 1 [hsEvent p.request, rEvent content] (ans t) c1 := by
+    rw [← hLw]
+    have hev' : ∀ s ∈ [hsEvent p.request, rEvent content], s ∈ c1.env.tr.events := by
+      intro s hs
+      rcases List.mem_cons.1 hs with rfl | hs
+      · exact hw1.ev _ List.mem_cons_self
+      · rw [List.mem_singleton.1 hs]; exact hrd
+    exact { hw1 with ev := hev' }
+  obtain ⟨c', A, hrun, hseg, hw⟩ := chain_serves (alignedBufsize b) mc (serAll dummyRecs ++ [])
+    (xs.map (UReq.spec mc)) (UReq.spec mc x) _ _ 1 [hsEvent p.request, rEvent content] (ans t) (feed c1 x.wire) 1000 fuel
+    (hall_of_oku x xs hok) hlo (Or.inl ⟨c1, hw1', rfl⟩) (by unfold ans; omega)
+  have hrun' : closedLoop fuel ((x :: xs).map UReq.wire)
+      (connS b mc t ((wscript W st, true) :: (x :: xs).map UReq.handler)) 0 = (c', "STALL") := by
+    have e : (x :: xs).map UReq.handler = ((x :: xs).map (UReq.spec mc)).map RSpec.handler := by
+      rw [List.map_map]; rfl
+    rw [e]
+    show closedLoop fuel (x.wire :: xs.map UReq.wire) _ 0 = _
+    rw [closedLoop, hrun1]
+    simp only [if_true]
+    rw [← hrun, List.map_map]; rfl
+  have hlast := lastLeft_specs mc x xs
+  refine ⟨c', O1, O2, A, hrun', hO.trans hOt.symm, segAll_specs mc (x :: xs) A hseg, hw.log, ?_, ?_, ?_, ?_, hw.sc, hw.inp, ?_⟩
+  · have := hw.hs; simpa [Nat.add_comm] using this
+  · exact hw.ev _ (mem_evsAfter _ _ _ (Or.inl List.mem_cons_self))
+  · exact hw.ev _ (mem_evsAfter _ _ _ (Or.inl (by simp)))
+  · intro y hy
+    exact hw.ev _ (mem_evsAfter _ _ _ (Or.inr ⟨UReq.spec mc y, List.mem_map_of_mem hy, rfl⟩))
+  · rw [← hlast]; exact hw.ph
+
+/-! ## Non-vacuity -/
+namespace Example
+open Fcgi.C01.Example Fcgi.C07E.Example
+
+/-- Stdout "hi", Stderr "er", an EMPTY Stdout write, Stderr "rr", Stdout "ok" -/
+def exW : WList := [(0, [104, 105]), (1, [101, 114]), (0, []), (1, [114, 114]), (0, [111, 107])]
+
+def wT : Transport :=
+  { input := serAll recs ++ serAll nS, endMode := .pend,
+    rd := [.n 10, .pending, .n 7, .all, .n 3], wr := [.n 5, .pending, .n 3, .pending, .n 1, .n 1, .pending, .n 20, .pending, .all],
+    fl := [] }
+
+/-- `single_request_writers_e2e` applied (the driver line is case `c07w-interleaved-split` of
+`/verif/.run/replay-c07-writers.ops`, model = crate): the five writes give four records, Stdout / Stderr / Stderr /
+Stdout, in script order, between the replies owed for the noise in `nS`. -/
+example : ∃ c' fin O₁ O₂, runTask 20 (connS 64 10 wT [(wscript exW (.complete 3), true)]) 0 none = (c', fin) ∧
+    O₁ ++ O₂ = owedStream 1 5 10 nS ∧
+    c'.env.tr.wlog = owedPreamble pre 10 recs ++ O₁ ++
+      ([1, 6, 0, 1, 0, 2, 6, 0, 104, 105, 0, 0, 0, 0, 0, 0] ++ [1, 7, 0, 1, 0, 2, 6, 0, 101, 114, 0, 0, 0, 0, 0, 0] ++
+       [1, 7, 0, 1, 0, 2, 6, 0, 114, 114, 0, 0, 0, 0, 0, 0] ++ [1, 6, 0, 1, 0, 2, 6, 0, 111, 107, 0, 0, 0, 0, 0, 0]) ++ O₂ ++
+      epilogue 1 (.complete 3) ∧
+    hsCount c'.env.tr.events = 1 ∧ readEvent [65, 66, 67] ∈ c'.env.tr.events := by
+  obtain ⟨c', fin, O1, O2, pad, res, hrun, hO, ho⟩ := single_request_writers_e2e (p := pre) (recs := recs)
+    (content := [65, 66, 67]) (srecs := nS) (b := 64) (mc := 10) (W := exW) (st := .complete 3) (more := []) (t := wT)
+    (fuel := 20) recs_wf rfl (pre_pairs_fit 64) (noise_fits 64) nS_ok nS_fits rfl ⟨by decide, by decide, rfl, by decide⟩ rfl
+    (by decide) (by decide)
+  refine ⟨c', fin, O1, O2, hrun, hO, ?_, ho.one_handler.1, ho.read⟩
+  rw [ho.log]
+  show [] ++ (owedPreamble pre 10 recs ++ O1 ++ outOf pre.id exW ++ O2 ++ epilogue pre.id (.complete 3)) = _
+  have h : outOf pre.id exW =
+      [1, 6, 0, 1, 0, 2, 6, 0, 104, 105, 0, 0, 0, 0, 0, 0] ++ [1, 7, 0, 1, 0, 2, 6, 0, 101, 114, 0, 0, 0, 0, 0, 0] ++
+       [1, 7, 0, 1, 0, 2, 6, 0, 114, 114, 0, 0, 0, 0, 0, 0] ++ [1, 6, 0, 1, 0, 2, 6, 0, 111, 107, 0, 0, 0, 0, 0, 0] := by
+    decide +kernel
+  rw [h, List.nil_append]; rfl
+
+/-- a write longer than one record: 70 000 bytes to Stderr are two records (65 535 + 4 465), nothing else -/
+example (d : Bytes) (hd : d.length = 70000) (W : WList) :
+    outOf 1 ((1, d) :: W) = recordOf 7 1 (d.take 65535) ++ recordOf 7 1 (d.drop 65535) ++ outOf 1 W := by
+  have h0 : d ≠ [] := by intro h; rw [h] at hd; cases hd
+  have h1 : d.drop 65535 ≠ [] := by
+    intro h; have := congrArg List.length h; simp [hd] at this
+  rw [outOf_cons, streamRecords_cons _ _ h0, streamRecords_cons _ _ h1]
+  have h2 : (d.drop 65535).length ≤ 65535 := by simp [hd]
+  rw [List.take_of_length_le h2, List.drop_of_length_le h2, streamRecords_nil, List.append_nil]
+  simp
+end Example
 
 end Fcgi.C07W
